@@ -24,7 +24,10 @@ Inductive gop :=
 | GPeerAddAsg (peer : N) (import : bool) (d : disp) (names : list N)
 | GPeerDelAsg (peer : N) (import : bool) (names : list N) (all : bool)
 | GPeerEval (peer : N) (r : route)
-| GDump.
+| GDump
+| GSetRpki                                       (* VRPs installed in TableManager.rpki *)
+| GImportEval (r : route)                        (* TableManager::apply_import with the stored import slot *)
+| GProbe (n : nlri) (asn : N).
 
 Definition EXISTS : N := 5.      (* Error::AlreadyExists and other daemon errors *)
 
@@ -91,12 +94,11 @@ Definition gstep (g : global) (o : gop) : res (global * N) :=
                     | Some old =>
                         Ok (with_peers g
                               (set_peer p
-                                 (Some {| as_disp := as_disp old;
-                                          as_pols := filter (fun q => negb (existsb (N.eqb (p_name q)) names)) (as_pols old) |})
+                                 (Some (without_policies old names))
                                  (g_peers g)), OK)
                     end
            end
-  | GPeerEval _ _ | GDump => Ok (g, OK)
+  | GPeerEval _ _ | GDump | GSetRpki | GImportEval _ | GProbe _ _ => Ok (g, OK)
   end.
 
 (* the export policy a peer's session evaluates: its override, else the global slot *)
@@ -109,15 +111,33 @@ Definition effective_export (g : global) (p : N) : option assignment :=
 Section GRun.
   Variable rx_comm rx_ext rx_large : N -> N -> bool.
   Variable rx_aspath : N -> list N -> bool.
+  Variable validate : nlri -> N -> option N.
 
-  Definition geval (g : global) (p : N) (r : route) : val :=
+  (* the gate of TableManager::apply_import and PeerSession::handle_prefix_update:
+     evaluation gets the RPKI table only when the assignment's cached flag is set
+     (an RPKI table without VRPs answers None to everything, as no table does) *)
+  Definition gate (rpki_on : bool) (a : assignment) : option (nlri -> N -> option N) :=
+    if as_needs_rpki a && rpki_on then Some validate else None.
+
+  Definition gimport (rpki_on : bool) (g : global) (r : route) : val :=
+    let rs := {| r_attrs := ro_attrs r; r_nh := ro_nh r |} in
+    match t_imp (g_table g) with
+    | None => VL (VB false :: v_rstate rs)
+    | Some a =>
+        match apply_import rx_comm rx_ext rx_large rx_aspath (gate rpki_on a) a (ro_src r) (ro_net r) rs with
+        | Panic _ => VL [VI (-1)%Z]
+        | Ok (f, rs') => VL (VB f :: v_rstate rs')
+        end
+    end.
+
+  Definition geval (rpki_on : bool) (g : global) (p : N) (r : route) : val :=
     match effective_export g p with
     | None => VL [VI (-2)%Z]
     | Some a =>
         let rs := {| r_attrs := ro_attrs r; r_nh := ro_nh r |} in
         let x := {| x_src := ro_src r; x_net := ro_net r; x_orig_nh := ro_orig r;
                     x_confed := ro_confed r; x_local := ro_local r; x_peer := ro_peer r |} in
-        match apply_export rx_comm rx_ext rx_large rx_aspath None a x rs with
+        match apply_export rx_comm rx_ext rx_large rx_aspath (gate rpki_on a) a x rs with
         | Panic _ => VL [VI (-1)%Z]
         | Ok (d, rs') => VL (VN (disp_code d) :: v_rstate rs')
         end
@@ -128,26 +148,35 @@ Section GRun.
         VList (fun e => VL [VN (fst e); v_asg (snd e)]) (g_peers g);
         VN 1; VN 1].
 
-  Fixpoint grun_ops (g : global) (l : list gop) : list val :=
+  Fixpoint grun_ops (rpki_on : bool) (g : global) (l : list gop) : list val :=
     match l with
     | [] => []
     | o :: r =>
         match o with
         | GPeerEval p ro =>
-            let v := geval g p ro in
+            let v := geval rpki_on g p ro in
             match v with
             | VL [VI (-1)%Z] => [v]
-            | _ => v :: grun_ops g r
+            | _ => v :: grun_ops rpki_on g r
             end
-        | GDump => gdump g :: grun_ops g r
+        | GImportEval ro =>
+            let v := gimport rpki_on g ro in
+            match v with
+            | VL [VI (-1)%Z] => [v]
+            | _ => v :: grun_ops rpki_on g r
+            end
+        | GDump => gdump g :: grun_ops rpki_on g r
+        | GSetRpki => VL [VN 0] :: grun_ops true g r
+        | GProbe n asn => (if rpki_on then VOpt VN (validate n asn) else VL []) :: grun_ops rpki_on g r
         | _ =>
             match gstep g o with
             | Panic _ => [VL [VI (-1)%Z]]
-            | Ok (g', c) => VL [VN c] :: grun_ops g' r
+            | Ok (g', c) => VL [VN c] :: grun_ops rpki_on g' r
             end
         end
     end.
 End GRun.
 
-Definition grun_case (tc te tl : list (N * list N)) (ta : list (N * list (list N))) (ops : list gop) : val :=
-  VL (grun_ops (rx_table tc) (rx_table te) (rx_table tl) (rx_str_table ta) empty_global ops).
+Definition grun_case (tc te tl : list (N * list N)) (ta : list (N * list (list N)))
+           (tv : list (nlri * N * option N)) (ops : list gop) : val :=
+  VL (grun_ops (rx_table tc) (rx_table te) (rx_table tl) (rx_str_table ta) (validate_table tv) false empty_global ops).
